@@ -1,5 +1,5 @@
 """Property -> rules mapping."""
-from .rules import attrs, cfg, conv, det, errsel, fmtdec, fmtparse, hdr, hyg, idx, ops, panics, rawid, shape, split
+from .rules import attrs, cfg, conv, dbg, det, errsel, fmtdec, fmtparse, hdr, hyg, idx, ops, panics, rawid, shape, split
 
 PROPS = {}
 
@@ -68,7 +68,7 @@ prop(
 )
 
 
-prop("C06", [rawid.rule_raw_id], meta={"explanation": "wip"})
+prop("C06", [dbg.rule_builder_shape, dbg.rule_debug_tuple_sibling, rawid.rule_raw_id], meta={"explanation": "wip"})
 
 
 prop(
